@@ -148,10 +148,6 @@ class MediaRequestBase(RequestHandlerBase):
 
         representation = media_file.representation
 
-        err = self.check_for_synthetic_http_error(media_file.content_type, seg_num, options)
-        if err is not None:
-            return err
-
         adp_set = AdaptationSet(
             mode=options.mode, content_type=media_file.content_type, id=media_file.track_id,
             segment_timeline=options.segmentTimeline)
@@ -169,6 +165,12 @@ class MediaRequestBase(RequestHandlerBase):
         except ValueError as err:
             logging.warning('ValueError: %s', err)
             return flask.make_response('Not Found', 404)
+
+        # checked once the segment number is known, so that a request by
+        # $Time$ is matched as well
+        err = self.check_for_synthetic_http_error(media_file.content_type, seg_num, options)
+        if err is not None:
+            return err
 
         assert mod_segment is not None
         assert isinstance(mod_segment, int)
